@@ -9,6 +9,7 @@ import (
 	"path/filepath"
 	"slices"
 	"sort"
+	"strings"
 	"testing"
 
 	"github.com/google/uuid"
@@ -101,6 +102,15 @@ func genSortable(t *rapid.T) SortableCase {
 		c.Floats = append(c.Floats, genFloatBits(t, fmt.Sprintf("f%d", i)))
 		c.Strings = append(c.Strings, genString(t, fmt.Sprintf("s%d", i)))
 	}
+	if rapid.IntRange(0, 7).Draw(t, "bothZeros") == 0 {
+		c.Floats[0], c.Floats[1] = 0, 1<<63
+	}
+	if rapid.IntRange(0, 7).Draw(t, "longStrings") == 0 {
+		n := rapid.SampledFrom([]int{63, 64, 65, 255, 256, 257, 1000}).Draw(t, "strPrefixLen")
+		prefix := strings.Repeat(rapid.SampledFrom([]string{"a", "\x00", "\xff"}).Draw(t, "strPrefixChar"), n)
+		c.Strings[0] = prefix
+		c.Strings[1] = prefix + rapid.StringMatching(`[ab]{0,2}`).Draw(t, "strTail")
+	}
 	return c
 }
 
@@ -127,6 +137,10 @@ func checkFamily[T inverted.Invertable](name string, vals []T, compare func(a, b
 			if c != 0 && kc == 0 {
 				return fmt.Errorf("%s: different values %v and %v share key %x", name, vals[i], vals[j], keys[i])
 			}
+			if c == 0 && kc != 0 {
+				// key order coincides with value order: equal values (the two float zeros) cannot be apart
+				return fmt.Errorf("%s: equal values %v and %v have different keys %x and %x, so a scan bounded by one misses the other", name, vals[i], vals[j], keys[i], keys[j])
+			}
 			if c < 0 && kc >= 0 || c > 0 && kc <= 0 {
 				return fmt.Errorf("%s: %v vs %v compare %d but keys %x vs %x compare %d", name, vals[i], vals[j], c, keys[i], keys[j], kc)
 			}
@@ -150,7 +164,7 @@ func execSortable(c SortableCase) vt.Result {
 			zeros++
 		}
 	}
-	// numeric comparison: +0 and -0 are the same value (they may share a key and decode to either)
+	// numeric comparison: +0 and -0 are the same value (they share a key and decode to either)
 	numCmp := func(a, b float64) int {
 		if a < b {
 			return -1
@@ -180,19 +194,19 @@ func TestReplaySortable(t *testing.T) { vt.Replay(t, "sortable", execSortable) }
 // conversion package, node / point / text keys
 
 type ConvCase struct {
-	U        uint64   `json:"u"`
-	V        uint64   `json:"v"`
-	Suffix   byte     `json:"suffix"`
-	Suffix2  byte     `json:"suffix2"`
-	Uuid     []byte   `json:"uuid"`
-	Uuid2    []byte   `json:"uuid2"`
-	F32      []uint32 `json:"f32bits"`
-	VecLen   int      `json:"vecLen"`
-	VecPool  []uint32 `json:"vecPool"`
-	Edges    []uint64 `json:"edges"`
-	Term     string   `json:"term"`
-	Term2    string   `json:"term2"`
-	RandKey  []byte   `json:"randKey"`
+	U       uint64   `json:"u"`
+	V       uint64   `json:"v"`
+	Suffix  byte     `json:"suffix"`
+	Suffix2 byte     `json:"suffix2"`
+	Uuid    []byte   `json:"uuid"`
+	Uuid2   []byte   `json:"uuid2"`
+	F32     []uint32 `json:"f32bits"`
+	VecLen  int      `json:"vecLen"`
+	VecPool []uint32 `json:"vecPool"`
+	Edges   []uint64 `json:"edges"`
+	Term    string   `json:"term"`
+	Term2   string   `json:"term2"`
+	RandKey []byte   `json:"randKey"`
 }
 
 func genConv(t *rapid.T) ConvCase {
@@ -206,6 +220,13 @@ func genConv(t *rapid.T) ConvCase {
 		Term:    genString(t, "term"),
 		Term2:   genString(t, "term2"),
 		RandKey: rapid.SliceOfN(rapid.Byte(), 0, 20).Draw(t, "randKey"),
+	}
+	if rapid.IntRange(0, 4).Draw(t, "longTerms") == 0 {
+		// long tokens with a long common prefix, around the lengths where a length byte / fixed buffer would overflow
+		n := rapid.SampledFrom([]int{63, 64, 65, 127, 128, 254, 255, 256, 257, 511, 512, 1000, 4096}).Draw(t, "termPrefixLen")
+		prefix := strings.Repeat(rapid.SampledFrom([]string{"a", "s", "é", "\x00"}).Draw(t, "termPrefixChar"), n)
+		c.Term = prefix[:n] + rapid.StringMatching(`[a-c]{0,2}`).Draw(t, "termTailA")
+		c.Term2 = prefix[:n] + rapid.StringMatching(`[a-c]{0,3}`).Draw(t, "termTailB")
 	}
 	switch rapid.IntRange(0, 2).Draw(t, "vlk") {
 	case 0:
@@ -354,13 +375,13 @@ func TestReplayConversion(t *testing.T) { vt.Replay(t, "conversion", execConv) }
 // scans over buckets filled with encoded keys visit exactly the values in range
 
 type ScanCase struct {
-	Kind      string   `json:"kind"` // int64 | float64 | string
-	Ints      []int64  `json:"ints,omitempty"`
-	Floats    []uint64 `json:"floatBits,omitempty"`
-	Strings   []string `json:"strings,omitempty"`
-	StartIdx  int      `json:"startIdx"` // index into the probe list, -1 = nil
-	EndIdx    int      `json:"endIdx"`
-	Inclusive bool     `json:"inclusive"`
+	Kind      string     `json:"kind"` // int64 | float64 | string
+	Ints      []int64    `json:"ints,omitempty"`
+	Floats    []uint64   `json:"floatBits,omitempty"`
+	Strings   []string   `json:"strings,omitempty"`
+	StartIdx  int        `json:"startIdx"` // index into the probe list, -1 = nil
+	EndIdx    int        `json:"endIdx"`
+	Inclusive bool       `json:"inclusive"`
 	Probes    ScanProbes `json:"probes"`
 }
 
